@@ -60,7 +60,7 @@ func TestC11(t *testing.T) {
 	r.Require("hist_circuit_ended_by_disconnect", 10)
 	r.Require("hist_connect_in_expiry_window", 3)
 
-	concurrency(t, r, 600, 8000)
+	concurrency(t, r, 600, 20000)
 	r.Require("conc_rounds", 100)
 	r.Require("conc_reserve_refused", 100)
 	r.Require("conc_connect_limit", 100)
@@ -171,25 +171,23 @@ func runHistory(t *testing.T, rng *rand.Rand, cfg relayCfg, nops int) *histResul
 				}
 			case x < 70: // CONNECT
 				c := conns[rng.IntN(len(conns))]
-				dst := rng.IntN(nPeers)
-				if rng.IntN(5) != 0 { // prefer destinations that hold a reservation
+				dst := (c.peer + 1 + rng.IntN(nPeers-1)) % nPeers // circuits to oneself are legal but rare (below)
+				if rng.IntN(5) != 0 {                             // prefer destinations that hold a reservation
 					var cand []int
 					for q := range m.res {
-						cand = append(cand, q)
+						if q != c.peer {
+							cand = append(cand, q)
+						}
 					}
 					if len(cand) > 0 {
-						// map order is random: choose by value
-						best := cand[0]
-						k := rng.IntN(len(cand))
-						sortInts(cand)
-						best = cand[k]
-						dst = best
+						sortInts(cand) // map order is random: choose by value
+						dst = cand[rng.IntN(len(cand))]
 					}
 				}
 				if rng.IntN(30) == 0 {
 					dst = -1
 				}
-				if rng.IntN(30) == 0 {
+				if rng.IntN(40) == 0 {
 					dst = c.peer
 				}
 				sc := stopScript{Kind: "ok"}
@@ -314,7 +312,7 @@ func reportBubble(r *run.R, caseID string, b run.BubbleResult, detail any) bool 
 }
 
 func histories(t *testing.T, r *run.R) {
-	n := r.Pick(8000, 80000)
+	n := r.Pick(8000, 200000)
 	var mu sync.Mutex
 	run.Parallel(n, 0, func(i int) {
 		caseID := fmt.Sprintf("hist/%d", i)
